@@ -395,6 +395,17 @@ func polyCentered(r *ring.Ring, p ring.Poly) []*big.Int {
 // active parties (or to zero: collective decryption) and checks the message model.
 func (d *c16Deploy) runKeySwitch(ct *rlwe.Ciphertext, toZero bool) bool {
 	ctx, ch, params := d.ctx, d.ctx.Ch, d.params
+	// libCt is what the protocol is given. When the parties allocate their shares below the level of the
+	// ciphertext, the protocol works at the level of the shares: the oracles then use the ciphertext cut down to
+	// that level (the same message), the protocol still receives the ciphertext as it is.
+	libCt := ct
+	belowLevel := -1
+	if ct.Level() > 0 && ch.Chance("share-below-ct-level", 1, 5) {
+		belowLevel = ch.Draw("share-level-below", ct.Level())
+		ct = libCt.CopyNew()
+		ct.Resize(ct.Degree(), belowLevel)
+		ctx.Count("probe.share-allocated-below-ciphertext-level", 1)
+	}
 	level := ct.Level()
 	ringQ := params.RingQ().AtLevel(level)
 	kgen := rlwe.NewKeyGenerator(params)
@@ -413,11 +424,11 @@ func (d *c16Deploy) runKeySwitch(ct *rlwe.Ciphertext, toZero bool) bool {
 		return false
 	}
 	shareLevel := level
-	if ch.Chance("share-above-ct-level", 1, 4) && level < params.MaxLevelQ() {
+	if belowLevel < 0 && ch.Chance("share-above-ct-level", 1, 4) && level < params.MaxLevelQ() {
 		shareLevel = level + 1 + ch.Draw("share-extra-level", params.MaxLevelQ()-level)
 		ctx.Count("probe.share-allocated-above-ciphertext-level", 1)
 	}
-	ctSnap := hashPoly(hashPoly(1, ct.Value[0]), ct.Value[1])
+	ctSnap := hashPoly(hashPoly(1, libCt.Value[0]), libCt.Value[1])
 	shares := make([]any, d.n)
 	c1 := ringQ.NewPoly()
 	c1.CopyLvl(level, ct.Value[1])
@@ -433,7 +444,7 @@ func (d *c16Deploy) runKeySwitch(ct *rlwe.Ciphertext, toZero bool) bool {
 		}
 		s := p.AllocateShare(shareLevel)
 		skBefore := hashQP(d.sks[i].Value)
-		pk, site, msg := core.Protect(func() { p.GenShare(d.sks[i], outKeys[i], ct, &s) })
+		pk, site, msg := core.Protect(func() { p.GenShare(d.sks[i], outKeys[i], libCt, &s) })
 		if pk {
 			ctx.Fail("panic", "KeySwitch.GenShare", "GenShare panicked in %s: %s", site, msg)
 			return false
@@ -442,7 +453,7 @@ func (d *c16Deploy) runKeySwitch(ct *rlwe.Ciphertext, toZero bool) bool {
 			ctx.Fail("metadata", "KeySwitch.GenShare|share-level", "share generated for a level-%d ciphertext has level %d", level, s.Value.Level())
 			return false
 		}
-		if hashQP(d.sks[i].Value) != skBefore || hashPoly(hashPoly(1, ct.Value[0]), ct.Value[1]) != ctSnap {
+		if hashQP(d.sks[i].Value) != skBefore || hashPoly(hashPoly(1, libCt.Value[0]), libCt.Value[1]) != ctSnap {
 			ctx.Fail("inputs", "KeySwitch.GenShare|input-modified", "GenShare modified its secret key or the input ciphertext")
 			return false
 		}
@@ -477,10 +488,10 @@ func (d *c16Deploy) runKeySwitch(ct *rlwe.Ciphertext, toZero bool) bool {
 	want := decryptRaw(params, ct, d.ideal)
 	// output: in place, fresh, or a dirty ciphertext of another level / degree
 	var out *rlwe.Ciphertext
-	in := ct
+	in := libCt
 	switch ch.Draw("ks-out", 3) {
 	case 0:
-		in = ct.CopyNew()
+		in = libCt.CopyNew()
 		out = in
 	case 1:
 		out = rlwe.NewCiphertext(params, 1, level)
@@ -547,6 +558,13 @@ func outputOwnsMetadata(ctx *core.RunCtx, name string, in, out *rlwe.Ciphertext)
 // runPublicKeySwitch re-encrypts ct under the public key of a new secret.
 func (d *c16Deploy) runPublicKeySwitch(ct *rlwe.Ciphertext) bool {
 	ctx, ch, params := d.ctx, d.ctx.Ch, d.params
+	// as in runKeySwitch: shares allocated below the level of the ciphertext
+	libCt := ct
+	if ct.Level() > 0 && ch.Chance("share-below-ct-level", 1, 5) {
+		ct = libCt.CopyNew()
+		ct.Resize(ct.Degree(), ch.Draw("share-level-below", libCt.Level()))
+		ctx.Count("probe.share-allocated-below-ciphertext-level", 1)
+	}
 	level := ct.Level()
 	ringQ := params.RingQ().AtLevel(level)
 	kgen := rlwe.NewKeyGenerator(params)
@@ -573,7 +591,7 @@ func (d *c16Deploy) runPublicKeySwitch(ct *rlwe.Ciphertext) bool {
 			p, _ = multiparty.NewPublicKeySwitchProtocol(params, d.noise)
 		}
 		s := p.AllocateShare(level)
-		pk, site, msg := core.Protect(func() { p.GenShare(d.sks[i], pkOut, ct, &s) })
+		pk, site, msg := core.Protect(func() { p.GenShare(d.sks[i], pkOut, libCt, &s) })
 		if pk {
 			ctx.Fail("panic", "PublicKeySwitch.GenShare", "GenShare panicked in %s: %s", site, msg)
 			return false
@@ -651,9 +669,9 @@ func (d *c16Deploy) runPublicKeySwitch(ct *rlwe.Ciphertext) bool {
 	}
 	want := decryptRaw(params, ct, d.ideal)
 	out := rlwe.NewCiphertext(params, 1, level)
-	in := ct
+	in := libCt
 	if ch.Bool("pks-in-place") {
-		in = ct.CopyNew()
+		in = libCt.CopyNew()
 		out = in
 	}
 	pk, site, msg := core.Protect(func() { base.KeySwitch(in, *agg.(*multiparty.PublicKeySwitchShare), out) })
